@@ -109,7 +109,7 @@ func runC17(r *Run) {
 	r.Check(firstAll == 3, "C17.2", "tmgossip.ChattyStrategy.kernel(first-update)", w.Pos(k.Pos()), fmt.Sprintf("the first update broadcasts its voting, committing and next-round views in full (%d of 3)", firstAll))
 	// nil-voted round: unconditional
 	nvOK := false
-	for _, b := range k.Blocks {
+	for _, b := range ka.blocks() {
 		if len(b.Instrs) == 0 {
 			continue
 		}
@@ -187,7 +187,7 @@ func runC17(r *Run) {
 			}
 		}
 		n := 0
-		for _, b := range fn.Blocks {
+		for _, b := range a.blocks() {
 			if len(b.Instrs) == 0 {
 				continue
 			}
@@ -256,19 +256,11 @@ func runC17(r *Run) {
 				r.Check(fromProofs && !fromSummary, "C17.3", "tmgossip.ChattyStrategy.broadcastUpdatesOnly("+strings.ToLower(kind)+"-predicate-source)", w.InstrPos(ifi),
 					"the "+kind+" change test must be computed from the signatures in both views' "+kind+"Proofs and not from the vote summary's power figures; it reads: "+strings.Join(setKeys(srcs), " | "))
 			}
-			ok := true
-			where := ""
-			for _, ret := range a.Returns() {
-				if len(ret.Results) == 1 {
-					if k, isK := ret.Results[0].(*ssa.Const); isK && k.Value != nil && k.Value.ExactString() == "false" {
-						continue
-					}
-				}
-				if !(guard == ret.Block() || guard.Dominates(ret.Block())) {
-					ok = false
-					where = w.InstrPos(ret)
-				}
-			}
+			// path-sensitively: is there a way to a return whose value can be true that never passes the
+			// change test of this part? (boolean flags are followed along the path, so an `ok` flag that
+			// is false when a stage is skipped does not count as a success)
+			where := successReturnAvoiding(w, fn, guard)
+			ok := where == ""
 			r.Check(ok, "C17.3", con, w.InstrPos(calls[0]), "every return that can report success must have evaluated the change test of "+helper+" (a return at "+where+" skips it: when two parts change in one update, the later part is never sent although the view is remembered as sent)")
 		}
 		// proposals: any change in count triggers a full re-send of the proposals
@@ -374,4 +366,90 @@ func countSources(w *World, a *FnA, v ssa.Value, depth int, out map[string]bool,
 	default:
 		out[a.sh.Of(v).String()] = true
 	}
+}
+
+// successReturnAvoiding looks for a path from fn's entry to a Return whose (single, boolean) result
+// can be true that never enters block avoid. Facts about boolean phis are carried along the path:
+// constants received on phi edges, and the outcome of branches on a phi. It returns the position of
+// such a return, or "".
+func successReturnAvoiding(w *World, fn *ssa.Function, avoid *ssa.BasicBlock) string {
+	seen := map[string]bool{}
+	found := ""
+	var walk func(from, b *ssa.BasicBlock, f pathFacts)
+	walk = func(from, b *ssa.BasicBlock, f pathFacts) {
+		if found != "" || b == avoid {
+			return
+		}
+		nf := f
+		if from != nil {
+			nf = f.enter(from, b)
+		}
+		key := fmt.Sprintf("%d|%s", b.Index, nf.key())
+		if seen[key] || len(seen) > 200000 {
+			return
+		}
+		seen[key] = true
+		last := b.Instrs[len(b.Instrs)-1]
+		switch x := last.(type) {
+		case *ssa.Return:
+			if b.Comment == "recover" && len(b.Preds) == 0 {
+				return
+			}
+			val := "?"
+			if len(x.Results) == 1 {
+				switch v := x.Results[0].(type) {
+				case *ssa.Const:
+					if v.Value != nil {
+						val = v.Value.ExactString()
+					}
+				case *ssa.Phi:
+					if known, ok := nf[v]; ok {
+						val = known
+					}
+				}
+			}
+			if val != "false" {
+				found = w.InstrPos(x)
+			}
+			return
+		case *ssa.Panic:
+			return
+		case *ssa.If:
+			if d := nf.decide(b); d >= 0 {
+				walk(b, b.Succs[d], nf)
+				return
+			}
+			// branching on a boolean phi tells its value on each edge
+			cond, neg := x.Cond, false
+			for {
+				u, ok := cond.(*ssa.UnOp)
+				if !ok || u.Op != token.NOT {
+					break
+				}
+				neg = !neg
+				cond = u.X
+			}
+			for si, sb := range b.Succs {
+				ef := nf
+				if ph, ok := cond.(*ssa.Phi); ok {
+					ef = pathFacts{}
+					for k, v := range nf {
+						ef[k] = v
+					}
+					if (si == 0) != neg {
+						ef[ph] = "true"
+					} else {
+						ef[ph] = "false"
+					}
+				}
+				walk(b, sb, ef)
+			}
+			return
+		}
+		for _, sb := range b.Succs {
+			walk(b, sb, nf)
+		}
+	}
+	walk(nil, fn.Blocks[0], pathFacts{})
+	return found
 }
